@@ -27,7 +27,9 @@ import (
 )
 
 // c15Menu is the event menu over the given boundary sizes, simplest first.
-func c15Menu(sizes []int, thorough bool) []c15Event {
+// Sizes listed in lite are part of the boundary set but requests that touch them
+// vary the ticket only over {none, latest} (quick tier: keeps the menu small).
+func c15Menu(sizes []int, lite map[int]bool, thorough bool) []c15Event {
 	var out []c15Event
 	for _, o := range sizes {
 		for _, n := range sizes {
@@ -47,14 +49,28 @@ func c15Menu(sizes []int, thorough bool) []c15Event {
 	e := c15GetEnv()
 	for _, s := range sizes {
 		for _, n := range sizes {
+			tickets := tickets
+			if lite[s] || lite[n] {
+				tickets = []string{"", "latest"}
+			}
 			switch {
 			case n < s:
 				out = append(out, c15Event{Kind: "ae", Start: s, End: n})
 			case n == s:
 				for _, t := range tickets {
 					out = append(out, c15Event{Kind: "ae", Start: s, End: n, Ticket: t})
+					// commit-only requests with one failed Upload (the retry is the
+					// same request without the fault, one level deeper)
+					for _, f := range []string{"upload-1", "upload-2"} {
+						out = append(out, c15Event{Kind: "ae", Start: s, End: n, Ticket: t, Fault: f})
+					}
 				}
 			default:
+				for _, t := range []string{"", "older"} {
+					for _, f := range []string{"upload-1", "upload-2", "upload-3"} {
+						out = append(out, c15Event{Kind: "ae", Start: s, End: n, Ticket: t, Fault: f})
+					}
+				}
 				for _, t := range tickets {
 					for _, c := range cuts {
 						for _, k := range corrupts {
@@ -86,7 +102,7 @@ func c15GroupMenu(menu []c15Event) []c15Group {
 			out = append(out, c15Group{events: []c15Event{ev}})
 			continue
 		}
-		k := fmt.Sprintf("%d/%d/%s", ev.Start, ev.End, ev.Ticket)
+		k := fmt.Sprintf("%d/%d/%s/%s", ev.Start, ev.End, ev.Ticket, ev.Fault)
 		i, ok := idx[k]
 		if !ok {
 			i = len(out)
@@ -348,7 +364,7 @@ func (b *c15BFS) run() (completed int, exhaustive bool) {
 						w.close()
 						live = nil
 					}
-					b.rp.Eval(fmt.Sprintf("%x|%s %d %d %s|%s|%x", c15Short(node.Key), ev.Kind, ev.Start+ev.Old, ev.End+ev.New, ev.Ticket, last.String(), c15Short(key)))
+					b.rp.Eval(fmt.Sprintf("%x|%s %d %d %s|%s|%x", c15Short(node.Key), ev.Kind, ev.Start+ev.Old, ev.End+ev.New, ev.Ticket+ev.Fault, last.String(), c15Short(key)))
 					b.report("transition", hist, viol)
 					if samples < 3 && changed && depth >= 1 && last.Status != 0 {
 						samples++
